@@ -362,7 +362,53 @@ struct MRes {
 /// Cause class of a non-fixed-point witness, derived from what the first re-serialisation did to
 /// the accepted input (never from the mutation operator or offsets): which kind of superbox the
 /// writer dropped/added relative to what the parser had accepted.
+/// Kinds ("claim", "signature", "assertion-store", …) of the child superboxes of every manifest of a
+/// store, looking through brotli-compressed manifests.
+fn manifest_children(store: &[u8]) -> Option<Vec<Vec<&'static str>>> {
+    fn kind(u: &Option<[u8; 16]>) -> &'static str {
+        match u.map(|u| [u[0], u[1], u[2], u[3]]) {
+            Some([b'c', b'2', b'c', b'l']) => "claim",
+            Some([b'c', b'2', b'c', b's']) => "signature",
+            Some([b'c', b'2', b'a', b's']) => "assertion-store",
+            Some([b'c', b'2', b'v', b'c']) => "credential-store",
+            Some([b'c', b'2', b'd', b'b']) => "databox-store",
+            _ => "other",
+        }
+    }
+    let root = jumbf::parse_store(store)?;
+    let mut out = Vec::new();
+    for m in jumbf::manifests(&root) {
+        if let Some(br) = m.children.iter().find(|c| &c.typ == b"brob") {
+            let mut dec = Vec::new();
+            let mut cur = std::io::Cursor::new(&store[br.payload_start()..br.end()]);
+            if brotli::BrotliDecompress(&mut cur, &mut dec).is_err() {
+                return None;
+            }
+            let inner = jumbf::parse_boxes(&dec, 0, dec.len(), "", 0)?;
+            let im = inner.first()?;
+            out.push(im.children.iter().filter(|c| &c.typ == b"jumb").map(|c| kind(&c.uuid)).collect());
+        } else {
+            out.push(m.children.iter().filter(|c| &c.typ == b"jumb").map(|c| kind(&c.uuid)).collect());
+        }
+    }
+    Some(out)
+}
+
 fn cause_class(accepted: &[u8], b1: &[u8]) -> String {
+    // first: what is structurally wrong with the writer's output, independent of the input
+    match manifest_children(b1) {
+        Some(ms) if ms.is_empty() => return "writer-emitted-no-manifest".into(),
+        Some(ms) => {
+            for kids in &ms {
+                for need in ["claim", "signature", "assertion-store"] {
+                    if !kids.contains(&need) {
+                        return format!("writer-omitted-{need}-box");
+                    }
+                }
+            }
+        }
+        None => {}
+    }
     let (Some(a), Some(b)) = (jumbf::parse_store(accepted), jumbf::parse_store(b1)) else {
         return "unparseable-by-walker".into();
     };
